@@ -999,7 +999,11 @@ func c15RunOne(rt *rapid.T, rec *verifx.Recorder, m *c15Mount, role *c15Role, q 
 		return
 	}
 	fail := func(sig, format string, args ...any) {
-		rec.Violation(rt, sig, detail(cert), "%s (role key_type=%s issuer=%s/%s): %s", path, role.KeyType, issuerName, behav, fmt.Sprintf(format, args...))
+		raw := fmt.Sprintf("%s (role key_type=%s issuer=%s/%s): %s", path, role.KeyType, issuerName, behav, fmt.Sprintf(format, args...))
+		d := detail(cert)
+		d["message"] = raw
+		rt.Logf("violation %s: %s", sig, raw)
+		rec.Violation(rt, sig, d, "%s", vxStable(raw)) // stable text: rapid only shrinks failures whose message repeats exactly
 	}
 
 	// 1. signature and issuer
@@ -1054,7 +1058,7 @@ func c15RunOne(rt *rapid.T, rec *verifx.Recorder, m *c15Mount, role *c15Role, q 
 			fail("notafter-forbidden", "not_after_bound=forbid but a request carrying not_after=%s was served", q.NotAfter)
 		case "ttl-limited":
 			if cert.NotAfter.After(t1.Add(ttlEff + skew)) {
-				fail("notafter-beyond-ttl-limit", "not_after_bound=ttl-limited (ttl %s) but NotAfter is %s from now", ttlEff, cert.NotAfter.Sub(t1).Round(time.Second))
+				fail("notafter-beyond-ttl-limit", "not_after_bound=ttl-limited (ttl %s) but NotAfter is %s from now", ttlEff, cert.NotAfter.Sub(t1).Round(time.Minute))
 			}
 		default:
 			ts, _ := time.Parse(time.RFC3339, naBound)
@@ -1064,14 +1068,14 @@ func c15RunOne(rt *rapid.T, rec *verifx.Recorder, m *c15Mount, role *c15Role, q 
 		}
 	default:
 		if cert.NotAfter.After(t1.Add(maxEff + skew)) {
-			fail("notafter-beyond-max-ttl", "NotAfter is %s from now, beyond max TTL %s (role max_ttl %v, mount max %s, requested ttl %s)", cert.NotAfter.Sub(t1).Round(time.Second), maxEff, role.MaxTTL, m.cfg.MountMax, q.TTL)
+			fail("notafter-beyond-max-ttl", "NotAfter is %s from now, beyond max TTL %s (role max_ttl %v, mount max %s, requested ttl %s)", cert.NotAfter.Sub(t1).Round(time.Minute), maxEff, role.MaxTTL, m.cfg.MountMax, q.TTL)
 		}
 		want := ttlEff
 		if q.TTL > 0 {
 			want = q.TTL
 		}
 		if cert.NotAfter.After(t1.Add(want + skew)) {
-			fail("notafter-beyond-requested-ttl", "NotAfter is %s from now, beyond the requested/default ttl %s", cert.NotAfter.Sub(t1).Round(time.Second), want)
+			fail("notafter-beyond-requested-ttl", "NotAfter is %s from now, beyond the requested/default ttl %s", cert.NotAfter.Sub(t1).Round(time.Minute), want)
 		}
 		if naBound != "" && naBound != "permit" && naBound != "forbid" && naBound != "ttl-limited" {
 			ts, _ := time.Parse(time.RFC3339, naBound)
